@@ -2391,6 +2391,18 @@ pub fn c10_quiescent(w: &mut MWorld, now_ms: u64) -> Option<Violation> {
             if c.res != CallRes::InFlight {
                 continue;
             }
+            // a zero timeout gives the call exactly one poll
+            let zero = match c.kind {
+                CallKind::Create => op.eff.1 == Some(0),
+                CallKind::Recycle => op.eff.2 == Some(0),
+                _ => false,
+            };
+            if zero && c.polled && w.sc.pool.runtime {
+                return c10(
+                    "phase_timeout_fires",
+                    format!("no task is runnable but {} with a zero timeout is still in flight after its first poll", c.kind.name()),
+                );
+            }
             let t = match c.kind {
                 CallKind::Create => nz(op.eff.1),
                 CallKind::Recycle => nz(op.eff.2),
